@@ -97,8 +97,8 @@ func init() {
 		Level: "exploration",
 		Items: []planItem{
 			{Scenario: "core-enum", Stratum: "", Quick: 48, Thorough: 400, PerJob: 2},
-			{Scenario: "core", Stratum: "heal", Quick: 1500, Thorough: 60000, PerJob: 16},
-			{Scenario: "xfer", Stratum: "heal", Quick: 500, Thorough: 15000, PerJob: 8},
+			{Scenario: "core", Stratum: "heal", Quick: 4000, Thorough: 60000, PerJob: 16},
+			{Scenario: "xfer", Stratum: "heal", Quick: 1200, Thorough: 15000, PerJob: 8},
 		},
 		QuickBudget: 60 * time.Second, ThoroughBudget: 25 * time.Minute, CountCases: false,
 		Rule: "evaluations = seeded simulated runs. 'core-enum': one run = one drawn configuration of two raw cores x ALL 4^K assignments of {deliver, drop, duplicate, deliver-late} to the first K datagrams (K=4 quick, K=6 thorough; both directions, emission order), each followed by a fair network - enumerated_cases counts them. 'core/heal' and 'xfer/heal': seeded faults and, in half of the runs, a total outage (up to 10 virtual minutes) until a seeded instant, then a fair network; the writers stop when the network heals, and everything written must be read and both backlogs must be zero within an analytic budget (120 s probe back-off + (max retransmission count + 2) x 60 s + a stop-and-wait allowance per queued segment). Non-trivial = at least one fault fired and payload reached a reader; distinct = distinct event-log hashes among those",
@@ -244,7 +244,7 @@ func init() {
 	plans["C13"] = &propPlan{
 		Level: "exploration",
 		Items: []planItem{
-			{Scenario: "block", Stratum: "", Quick: 1600, Thorough: 60000, PerJob: 8},
+			{Scenario: "block", Stratum: "", Quick: 6000, Thorough: 60000, PerJob: 8},
 		},
 		QuickBudget: 60 * time.Second, ThoroughBudget: 25 * time.Minute,
 		Rule: "evaluations = seeded simulated runs: 1-3 reader goroutines blocked on one session, 1-3 writer goroutines on its peer (small send window, so they block), 0-2 acceptors on the listener; 4-44 stimuli per run at seeded virtual instants: data arrival, window opening, SetReadDeadline / SetWriteDeadline / SetDeadline with none / past / near / far values in every order (the fired transition kinds none->set, set->later, set->earlier, set->none, none->past ... are counted), session Close, transport read/write errors, listener deadline changes, new peers, listener Close / transport error. After every step a reference model of a blocking endpoint is evaluated at quiescence: (1) no call may still be pending when data is readable, the window has had room for more than one update interval, its deadline has been reached, the session/listener is closed or the socket has reported an error; (2) every return is legal at its return time (timeout never before the deadline in force, errors only with a cause, messages intact and read exactly once); (3) after Close: Write fails, Read drains then fails, second Close errors. Non-trivial = messages were read and at least 3 stimuli fired; distinct = distinct event-log hashes",
@@ -256,7 +256,7 @@ func init() {
 	plans["C03"] = &propPlan{
 		Level: "exploration",
 		Items: []planItem{
-			{Scenario: "xfer", Stratum: "stall", Quick: 500, Thorough: 20000, PerJob: 4},
+			{Scenario: "xfer", Stratum: "stall", Quick: 2000, Thorough: 20000, PerJob: 4},
 		},
 		QuickBudget: 70 * time.Second, ThoroughBudget: 25 * time.Minute,
 		Rule: "evaluations = seeded simulated runs: the reading application stops at a seeded stream offset for a seeded time (1 ms .. 20 virtual minutes, so the window-probe back-off reaches its cap) while the writer keeps writing; receive window 1..64; with and without congestion control; every ACK-only / WASK / WINS datagram (chosen by the independent decoder) is lost during a seeded window covering the whole pause, its beginning, or the resumption. Oracles: stream prefix (nothing lost), receiver occupancy limits and sender backlog <= send window + one write while stalled, no previously unseen sn on the wire while the last window delivered to the sender is 0, and completion within an analytic budget after the reader has resumed and the targeted loss has ended. Non-trivial = the stall began, payload was delivered and a control datagram was dropped or a zero window was advertised; distinct = distinct event-log hashes",
@@ -270,7 +270,7 @@ func init() {
 	plans["C17"] = &propPlan{
 		Level: "exploration",
 		Items: []planItem{
-			{Scenario: "sched", Stratum: "", Quick: 1600, Thorough: 80000, PerJob: 16},
+			{Scenario: "sched", Stratum: "", Quick: 8000, Thorough: 80000, PerJob: 16},
 		},
 		QuickBudget: 60 * time.Second, ThoroughBudget: 25 * time.Minute,
 		Rule: "evaluations = seeded simulated runs of the REAL TimedSched (1-8 workers, hook H3) with 1-6 submitter goroutines and 5-300 tasks: deadlines past / now / equal to or +-1 ns around the expiry of a queued task / near / far future (hours) / bursts, tasks that re-submit themselves, Close at a seeded point; yield points in Put, prepend and the workers are armed for seeded hit windows, and a goroutine parked there is released 0-3 ns of virtual time later in tape order, which orders 'timer fired' and 'task arrived' both ways. Oracle: every task submitted and due before Close runs exactly once, never before its deadline, and not later than max(deadline, submission) + 1 us + 4 ns per task (the cost of hook H3 and of the parking); after Close and settling nothing runs and no scheduler goroutine survives. Non-trivial = tasks ran and at least one special deadline kind or a parking fired; distinct = distinct event-log hashes",
